@@ -110,7 +110,7 @@ func (i *interpreter) fsMutate(fr *frame, op string, path value) {
 		panic(crashPanic{})
 	}
 	fs.muts = append(fs.muts, fsMutation{op, pathStr(path)})
-	if len(i.ps.sched.gs) > 1 {
+	if len(i.ps.sched.gs) > 1 && !i.ps.fsNoYield {
 		i.ps.sched.yield(fr)
 	}
 }
@@ -582,7 +582,7 @@ func (i *interpreter) fileRead(fr *frame, f *mfile, p []value, off int64, useOff
 	if i.fsFault("read") {
 		return tuple{0, i.pathError(op, f.name, eIO)}
 	}
-	if len(i.ps.sched.gs) > 1 {
+	if len(i.ps.sched.gs) > 1 && !i.ps.fsNoYield {
 		i.ps.sched.yield(fr)
 	}
 	pos := f.off
@@ -1355,6 +1355,10 @@ func init() {
 	for _, pfx := range []string{desyncPath + ".", desyncPath + "/cmd/desync."} {
 		reg(pfx+"vSetBlockSize", func(i *interpreter, fr *frame, fn *ssa.Function, a []value) value {
 			i.ps.fs.blk = int64(a[0].(int))
+			return nil
+		})
+		reg(pfx+"vFSYield", func(i *interpreter, fr *frame, fn *ssa.Function, a []value) value {
+			i.ps.fsNoYield = !a[0].(bool)
 			return nil
 		})
 		reg(pfx+"vClones", func(i *interpreter, fr *frame, fn *ssa.Function, a []value) value { return len(i.ps.fs.cloneLog) })
